@@ -126,3 +126,19 @@ Example c38_nonvacuous :
                (fun x => bytes_eqb x [8;8;4;4]) = DTried [[8;8;8;8]; [8;8;4;4]] true /\
   client_do 5 rebind_world 1 0 (mk_purl s_http [101]) = ([EConnect [8;8;8;8]; EConnect [8;8;4;4]], SDone).
 Proof. vm_compute. repeat split; congruence. Qed.
+
+(** The predicate evaluated on the implementation's observed behaviour
+    ([Exec.holds_on], which classifies addresses with the numeric CIDR
+    specification) is implied by agreement with the model, for the classifier,
+    URL-guard and dialer cases (bytes < 256). *)
+From Akita Require Import C38.Exec C38.Proofs2.
+Theorem c38_model_agreement_implies_property : forall c, case_ok c ->
+  check_case c = true -> holds_on c = true.
+Proof. exact check_implies_holds. Qed.
+Print Assumptions c38_model_agreement_implies_property.
+
+(** The CIDR specification and the model of isInternalIP agree on EVERY byte slice
+    (any length, bytes < 256). *)
+Theorem c38_spec_equals_model : forall x, bytes_ok x -> spec_internal x = is_internal x.
+Proof. exact spec_internal_eq. Qed.
+Print Assumptions c38_spec_equals_model.
